@@ -186,10 +186,6 @@ fn sp_sign(f: &Sp) -> i128 {
     }
 }
 
-fn n_nonzero(f: &Sp) -> usize {
-    f.iter().filter(|&&x| x != 0).count()
-}
-
 /// exact nanosecond count of the uniform part; `None` if a unit above `allowed` is non-zero
 fn inv_ns(f: &Sp, allowed: usize) -> Option<i128> {
     let mut n = 0i128;
@@ -643,8 +639,17 @@ struct RoundCase<'a> {
     origin: i128,
     /// E = r + span
     e: Option<i128>,
-    /// input class of a zoned reference / end point
+    /// input class of the reference / end point (see `mk_case`)
     zclass: &'static str,
+    /// reference or end point on the later side of a fold (Zoned::until defects F8/F9)
+    zfold: bool,
+    /// E is a whole number of units u (u = d, w, mo, y) away from r
+    whole: [bool; 10],
+    /// E lies in the "shadow" of a clamped month end: r + n months is a clamped
+    /// date (day-of-month c days smaller than r's) and E is less than c days
+    /// after it, so "n months and a bit" and "n-1 months and 30-odd days" are
+    /// both readings of the same distance
+    shadow: bool,
 }
 
 fn case_str(sec: &str, c: &RoundCase, s: usize, l: Option<usize>, inc: i64, mode: &str) -> String {
@@ -683,10 +688,23 @@ fn must_err(rf: &Rf, own: usize, s: usize, l: Option<usize>, inc: i64) -> Option
 
 /// input class shared by the signatures of one rounding
 fn in_class(c: &RoundCase, s: usize, eff_l: usize, inc: i64) -> String {
-    if eff_l == W && s == D && inc > 1 {
+    let zoned = matches!(c.rf.k, RfK::Zoned(..));
+    if !zoned && eff_l == W && s == D && inc > 1 {
         return "largest=week,smallest=day,inc>1".into();
     }
-    format!("{},smallest={},{}", if c.sign < 0 { "negative-span" } else { "positive-span" }, UN[s], c.zclass)
+    if c.zfold {
+        // upstream defects of Zoned::until, independent of the rounding options
+        return c.zclass.into();
+    }
+    let sc = if s < D { "time" } else { UN[s] };
+    let mut out = format!("{},smallest={},{}", if c.sign < 0 { "negative-span" } else { "positive-span" }, sc, c.zclass);
+    if c.shadow && eff_l >= MO && s < MO {
+        out.push_str(",r+span-in-shadow-of-clamped-month-end");
+    }
+    if c.sign > 0 && s >= D && c.whole[s] {
+        out.push_str(",whole-units-of-smallest");
+    }
+    out
 }
 
 fn round_all(r: &Report, sec: &str, c: &RoundCase, lc: &mut Loc) -> u64 {
@@ -729,7 +747,13 @@ fn round_one(r: &Report, sec: &str, c: &RoundCase, s: usize, l: Option<usize>, i
     let got = match got {
         Err(p) => {
             lc.add("panic");
-            let cls = if s >= D && inc <= 0 { format!("calendar-unit,inc<=0,{}", c.zclass) } else { in_class(c, s, eff_l, inc) };
+            let cls = if s >= D && inc <= 0 {
+                format!("calendar-unit,{}", if inc == 0 { "inc=0" } else { "inc<0" })
+            } else if c.zfold {
+                c.zclass.to_string()
+            } else {
+                in_class(c, s, eff_l, inc)
+            };
             r.viol(sec, &format!("Span::round/{}:{}", panic_sig(&p), cls), cs(), p);
             return;
         }
@@ -759,7 +783,7 @@ fn round_one(r: &Report, sec: &str, c: &RoundCase, s: usize, l: Option<usize>, i
                 Some(e) => (e - c.origin).abs() < (1i128 << 62),
                 None => false,
             };
-            if short && rf.mid && c.f.iter().enumerate().all(|(u, &x)| x.unsigned_abs() <= (LIMITS[u] / 4) as u64) {
+            if short && rf.mid && inc <= 1_000 && c.f.iter().enumerate().all(|(u, &x)| x.unsigned_abs() <= (LIMITS[u] / 4) as u64) {
                 lc.add("unexpected_error");
                 r.viol(sec, &format!("Span::round/unexpected-error:{}", in_class(c, s, eff_l, inc)), cs(), format!("jiff Err({}) model: representable (|E-r| < 2^62 ns, reference mid-range)", e));
             } else {
@@ -949,8 +973,8 @@ fn check_neighbour(r: &Report, sec: &str, c: &RoundCase, s: usize, eff_l: usize,
     }
     lc.add("wrong_neighbour");
     let t = if tie { "exact-tie" } else { "off-tie" };
-    let f14 = c.sign < 0 && s >= D && tie;
-    let f15 = eff_l == W && s == D && inc > 1;
+    let f14 = c.sign < 0 && s >= D && tie && !c.zfold;
+    let f15 = !matches!(rf.k, RfK::Zoned(..)) && eff_l == W && s == D && inc > 1;
     let class = match (f14, f15) {
         (true, false) => "negative-span,calendar-smallest,exact-tie".to_string(),
         (true, true) => "negative-span,calendar-smallest,exact-tie+largest=week,smallest=day,inc>1".to_string(),
@@ -974,24 +998,96 @@ fn check_neighbour(r: &Report, sec: &str, c: &RoundCase, s: usize, eff_l: usize,
     );
 }
 
+/// the civil date of `r + f`
+fn add_date(r: &Report, rf: &Rf, f: &Sp) -> Option<Date> {
+    match &rf.k {
+        RfK::Civil(dt, _) => {
+            let span = try_span(f)?;
+            match guard(|| dt.checked_add(span)) {
+                Ok(Ok(x)) => Some(x.date()),
+                _ => None,
+            }
+        }
+        RfK::Zoned(_) => rf.zpoint(r, f).map(|z| z.date()),
+        _ => None,
+    }
+}
+
+/// Everything about one (reference, span) that the signatures are derived from.
 fn mk_case<'a>(r: &Report, rf: &'a Rf, f: &'a Sp) -> RoundCase<'a> {
     let span = try_span(f).unwrap();
+    let origin = rf.origin();
+    let sign = sp_sign(f);
+    let mut zfold = false;
+    let mut whole = [false; 10];
+    let mut shadow = false;
     let (e, zclass) = match &rf.k {
-        RfK::Zoned(_) => {
+        RfK::Zoned(z0) => {
             let ez = rf.zpoint(r, f);
+            let e = ez.as_ref().map(|z| conv::ts_ns(z.timestamp()));
             let e_later = ez.as_ref().map(later_side_of_fold).unwrap_or(false);
             let zc = if rf.r_later {
+                zfold = true;
                 "zoned:reference-on-later-side-of-fold"
             } else if e_later {
+                zfold = true;
                 "zoned:r+span-on-later-side-of-fold"
             } else {
-                "zoned"
+                // is the civil day that contains E (counted in whole days from r), or the one before it, not 24 hours long?
+                let mut irregular = false;
+                if let Some(e) = e {
+                    if let Some((p, q)) = total_model(r, rf, D, origin, e) {
+                        let n = p.abs() / q;
+                        let s = if p < 0 { -1 } else { 1 };
+                        let pt = |k: i128| {
+                            let mut g = [0; 10];
+                            g[D] = (s * k) as i64;
+                            rf.point(r, &g)
+                        };
+                        for k in [n - 1, n] {
+                            if k >= 0 {
+                                if let (Some(a), Some(b)) = (pt(k), pt(k + 1)) {
+                                    irregular |= (b - a).abs() != DAY_NS;
+                                }
+                            }
+                        }
+                    }
+                }
+                let _ = z0;
+                if irregular {
+                    "zoned:near-a-day-that-is-not-24h"
+                } else {
+                    "zoned"
+                }
             };
-            (ez.map(|z| conv::ts_ns(z.timestamp())), zc)
+            (e, zc)
         }
         _ => (rf.point(r, f), rf.kind()),
     };
-    RoundCase { rf, f, span, own: own_largest(f), sign: sp_sign(f), origin: rf.origin(), e, zclass }
+    if let (Some(e), RfK::Civil(..) | RfK::Zoned(..)) = (e, &rf.k) {
+        for u in D..=Y {
+            if let Some((p, q)) = total_model(r, rf, u, origin, e) {
+                whole[u] = p % q == 0;
+                if u == MO && sign > 0 && p / q >= 1 {
+                    let n = p / q;
+                    let mut g = [0; 10];
+                    g[MO] = n as i64;
+                    let rday = match &rf.k {
+                        RfK::Civil(dt, _) => dt.day(),
+                        RfK::Zoned(z) => z.day(),
+                        _ => 0,
+                    };
+                    if let Some(d) = add_date(r, rf, &g) {
+                        if d.day() < rday {
+                            g[D] = (rday - d.day()) as i64;
+                            shadow = rf.point(r, &g).map(|hi| e < hi).unwrap_or(false);
+                        }
+                    }
+                }
+            }
+        }
+    }
+    RoundCase { rf, f, span, own: own_largest(f), sign, origin, e, zclass, zfold, whole, shadow }
 }
 
 fn section_round(r: &Report, sec: &str, refs: &[Rf], pool: &[Sp]) {
@@ -1141,7 +1237,13 @@ fn section_total(r: &Report, sec: &str, refs: &[Rf], pool: &[Sp]) {
         let mut lc = Loc::default();
         for u in 0..10 {
             let cs = || format!("{} span={} ref={} unit={}", sec, fmt_sp(f), rf.name, UN[u]);
-            let cls = || format!("unit={},{}", UN[u], c.zclass);
+            let cls = || {
+                if c.zfold {
+                    c.zclass.to_string()
+                } else {
+                    format!("unit={},{}{}", UN[u], c.zclass, if c.shadow && u >= MO { ",r+span-in-shadow-of-clamped-month-end" } else { "" })
+                }
+            };
             let got = guard(|| match rf.rel() {
                 Some(rel) => c.span.total((UNITS[u], rel)),
                 None => c.span.total(UNITS[u]),
@@ -1189,10 +1291,16 @@ fn section_total(r: &Report, sec: &str, refs: &[Rf], pool: &[Sp]) {
                         }
                     } else {
                         lc.add("wrong");
-                        let vc = if u > rf.uniform_max() { "variable-unit" } else { "uniform-unit" };
+                        let sig = if c.sign == 0 {
+                            "Span::total/value:zero-span".to_string()
+                        } else if c.zfold {
+                            format!("Span::total/value:{}", c.zclass)
+                        } else {
+                            format!("Span::total/value:{},{}", if c.sign < 0 { "negative-span" } else { "positive-span" }, cls())
+                        };
                         r.viol(
                             sec,
-                            &format!("Span::total/value:{},{},{}", vc, if c.sign < 0 { "negative-span" } else { "positive-span" }, cls()),
+                            &sig,
                             cs(),
                             format!("jiff {:?} model {}/{} = {:?}", x, p, q, p as f64 / q as f64),
                         );
@@ -1237,12 +1345,12 @@ fn section_pairs(r: &Report, refs: &[Rf], sub: &[Sp]) {
                     RfK::Marker => maxu >= MO,
                     _ => false,
                 };
-                let zc = if rf.r_later {
-                    "zoned:reference-on-later-side-of-fold"
-                } else if a.zclass.starts_with("zoned:") {
+                let zc = if a.zfold {
                     a.zclass
-                } else {
+                } else if b.zfold {
                     b.zclass
+                } else {
+                    rf.kind()
                 };
                 // (5) compare
                 {
@@ -1270,7 +1378,7 @@ fn section_pairs(r: &Report, refs: &[Rf], sub: &[Sp]) {
                             _ => lc.add("compare_ok_endpoint_unrepresentable"),
                         },
                         Ok(Err(e)) => {
-                            if a.e.is_some() && b.e.is_some() {
+                            if a.e.is_some() && b.e.is_some() && rf.mid && (a.e.unwrap() - a.origin).abs() < (1i128 << 62) && (b.e.unwrap() - b.origin).abs() < (1i128 << 62) {
                                 r.viol(sec, &format!("Span::compare/unexpected-error:{}", zc), cs(), format!("jiff Err({}) although r+a and r+b exist", e));
                             } else {
                                 lc.add("compare_error_out_of_range");
@@ -1295,13 +1403,27 @@ fn section_pairs(r: &Report, refs: &[Rf], sub: &[Sp]) {
                         }
                     }
                     // the end point (r + a) + b
+                    let mut zc = rf.kind();
                     let end: Option<i128> = match &rf.k {
                         RfK::None | RfK::Marker => a.e.zip(inv_ns(&bf, rf.allowed())).map(|(x, y)| x + y),
                         RfK::Civil(dt, _) => try_span(a.f).zip(try_span(&bf)).and_then(|(sa, sb)| match guard(|| dt.checked_add(sa).and_then(|m| m.checked_add(sb))) {
                             Ok(Ok(x)) => Some(conv::dt_civil_ns(x)),
                             _ => None,
                         }),
-                        RfK::Zoned(z) => zadd(r, z, a.f).and_then(|m| zadd(r, &m, &bf)).map(|x| conv::ts_ns(x.timestamp())),
+                        RfK::Zoned(z) => {
+                            let mid = zadd(r, z, a.f);
+                            let endz = mid.as_ref().and_then(|m| zadd(r, m, &bf));
+                            zc = if rf.r_later {
+                                "zoned:reference-on-later-side-of-fold"
+                            } else if endz.as_ref().map(later_side_of_fold).unwrap_or(false) {
+                                "zoned:(r+a)+b-on-later-side-of-fold"
+                            } else if mid.as_ref().map(later_side_of_fold).unwrap_or(false) {
+                                "zoned:r+a-on-later-side-of-fold"
+                            } else {
+                                "zoned"
+                            };
+                            endz.map(|x| conv::ts_ns(x.timestamp()))
+                        }
                     };
                     match got {
                         Err(p) => r.viol(sec, &format!("Span::{}/{}:{}", opn, panic_sig(&p), zc), cs(), p),
